@@ -4,6 +4,7 @@ import (
 	"bufio"
 	"bytes"
 	"fmt"
+	"hash/crc32"
 	"math/rand"
 	"strings"
 	"sync"
@@ -18,7 +19,7 @@ type muxStream struct{}
 
 func (muxStream) Name() string { return "mux" }
 func (muxStream) Rule() string {
-	return "route tables of 0..6 registrations drawn from every route kind (bind, search with base DN / filter / scope criteria over an alphabet with case variants, extended with three names, modify, add, delete) with and without (re-registered) default and unbind routes, crossed with requests of all kinds over the same alphabet, decoded from real bytes; exhaustive over all tables of <= 2 routes x all alphabet requests in the thorough tier, random beyond; oracle: exactly one handler, the first matching one by an independent reference, or a refusal with the request's id, unwillingToPerform and the operation's response tag; non-trivial = at least one route of the request's kind, distinct by case"
+	return "(the table is built on a Mux from NewMux or, for every second frame, on a zero-value Mux) route tables of 0..6 registrations drawn from every route kind (bind, search with base DN / filter / scope criteria over an alphabet with case variants, extended with three names, modify, add, delete) with and without (re-registered) default and unbind routes, crossed with requests of all kinds over the same alphabet, decoded from real bytes; exhaustive over all tables of <= 2 routes x all alphabet requests in the thorough tier, random beyond; oracle: exactly one handler, the first matching one by an independent reference, or a refusal with the request's id, unwillingToPerform and the operation's response tag; non-trivial = at least one route of the request's kind, distinct by case"
 }
 
 var (
@@ -140,6 +141,9 @@ func runMux(routes []string, frame []byte) (string, *muxRun) {
 	mux, err := gldap.NewMux()
 	if err != nil {
 		return "err", nil
+	}
+	if crc32.ChecksumIEEE(frame)&1 == 1 {
+		mux = &gldap.Mux{} // the zero value is a usable Mux too (the server's default router is one)
 	}
 	run := &muxRun{}
 	for i, spec := range routes {
